@@ -22,6 +22,7 @@ let parse_op fill s : op =
   | "AU" -> OAdd TmplUnknownPrefix | "AB" -> OAdd TmplUnregistered
   | "AL" -> OAdd TmplRaw  (* key-manager-only key type, RAW prefix: same bookkeeping, legacy creation path *)
   | "PT" -> OAddParams false | "PR" -> OAddParams true
+  | "PW" -> OAddParams false  (* WITH_ID_REQUIREMENT parameters: bound to the drawn id exactly as TINK parameters are *)
   | "KR" -> OAddKey (None, n_of_int fill)
   | "H" -> OHandle
   | _ -> (match s.[0] with
